@@ -409,7 +409,9 @@ func ruleSumDBRaw(w *World, r *Run, rule string) {
 
 // C19.c SIZE-NARROWING
 func ruleSizeNarrowing(w *World, r *Run, rule string) {
-	limit := new(big.Int).Lsh(big.NewInt(1), 62)
+	// tlog evaluates maxpow2(N+1) for the tree size N (subTreeIndex, used by TileHashReader) and maxpow2 only terminates
+	// for arguments <= 2^62: the largest size that may reach it is 2^62 - 1.
+	limit := new(big.Int).Sub(new(big.Int).Lsh(big.NewInt(1), 62), big.NewInt(1))
 	n := 0
 	for _, fp := range []string{"sumdb", "pixelbt"} {
 		ff, okf := feederFuncs(w, r, rule, fp)
@@ -437,7 +439,7 @@ func ruleSizeNarrowing(w *World, r *Run, rule string) {
 						}
 						src := a.Args[0]
 						bounded := false
-						// facts must imply src <= c for some constant c <= 2^62
+						// facts must imply src <= c for some constant c <= 2^62 - 1
 						for _, f := range facts {
 							anySub(f.T, func(t *Term) bool {
 								if c, ok := constVal(t); ok && c.Cmp(limit) <= 0 && c.Sign() > 0 {
@@ -449,8 +451,8 @@ func ruleSizeNarrowing(w *World, r *Run, rule string) {
 							})
 						}
 						// or bounded through the other (already bounded) size: src <= other <= c
-						key := cl.String() + " | size narrowed to int64 for tlog.ProveTree is bounded by 2^62"
-						r.Check(bounded, rule, key+fmt.Sprintf(" (argument %d)", i+1), w.pos(pv.Pos), "a log-signed checkpoint size is converted to int64 and handed to tlog.ProveTree without an upper bound <= 2^62: for sizes in (2^62, 2^63) tlog.maxpow2 overflows and never terminates (the feeder cycle hangs beyond its context); path: "+pathString(e, s))
+						key := cl.String() + " | size narrowed to int64 for tlog.ProveTree is bounded below 2^62"
+						r.Check(bounded, rule, key+fmt.Sprintf(" (argument %d)", i+1), w.pos(pv.Pos), "a log-signed checkpoint size is converted to int64 and handed to tlog.ProveTree without an upper bound <= 2^62-1: for sizes in [2^62, 2^63) tlog.maxpow2 (called with size+1 by the tile hash reader) overflows and never terminates (the feeder cycle hangs beyond its context); path: "+pathString(e, s))
 					}
 				}
 			}
